@@ -194,7 +194,7 @@ def c1(repo: Repo) -> RuleResult:
         if f_ is None:
             raise Inconclusive(f"{cname}.{meth} vanished")
         prim = ("nbits", "nbytes", "get_option_as_int_or_raise", "is_frozen", "ahead_nbits", "fields", "sorted_fields")
-        fl_ = compiler_flow(repo, cname, "_ast.py", primitives=prim, pure=prim + ("from_token",))
+        fl_ = compiler_flow(repo, cname, "_ast.py", module_funcs=True, primitives=prim, pure=prim + ("from_token",))
         return f_, fl_.run(f_.node)
 
     def outcome(paths: List[Any], repl: Any, exc: str, relevant: Tuple[str, ...]) -> Tuple[Optional[bool], Optional[str]]:
@@ -335,7 +335,11 @@ def c1(repo: Repo) -> RuleResult:
             skipped.append(r_)
         res.inst(part="interval", where=qual, missing_sentinel_skips=skipped)
         other_lits = sorted({_show(k_[1]) for p_ in paths for k_, _t in p_.guards if k_[0] == "truthy" and _show(k_[1]) not in ("self._is_missing",)})
-        if other_lits:
+        # a condition that is a call the engine did not see through says nothing about the schema: inconclusive
+        opaque_lits = [t_ for t_ in other_lits if "(" in t_ and not t_.startswith("self.")]
+        if other_lits and opaque_lits:
+            res.unsure(f"C1: {qual}: condition(s) {opaque_lits} of the width check not understood")
+        elif other_lits:
             res.bad(Finding("C1", fi.rel, fi.node.lineno, qual, str(other_lits), "the width check is skipped under a condition other than the internal missing-type sentinel", tag=f"{qual}:skip"))
 
     # ---- max_bytes: raise iff max_bytes > 0 and nbytes() > max_bytes
@@ -604,6 +608,49 @@ def c1(repo: Repo) -> RuleResult:
                     res.findings[-1].part = "options-total"
                     continue
         if got is None:
+            # any other spelling (named predicates calling each other, negations): the validator evaluated by the
+            # path engine on a grid of values around the documented bounds
+            try:
+                from .normal import C as _Cg
+                from .pyflow import PyFlow as _PFg
+
+                om_g = m.mod("bitproto/options.py")
+                fn_g = None
+                cand = v
+                if isinstance(cand, ast.Name) and cand.id in om_g.funcs:
+                    fn_g = om_g.funcs[cand.id].node
+                elif isinstance(cand, ast.Lambda):
+                    fn_g = ast.FunctionDef(name="<validator>", args=cand.args, body=[ast.Return(value=cand.body)], decorator_list=[], returns=None, type_comment=None)
+                    ast.copy_location(fn_g, cand)
+                    ast.fix_missing_locations(fn_g)
+                if fn_g is not None and len(fn_g.args.args) == 1:
+                    flg = _PFg(funcs={k_: f_.node for k_, f_ in om_g.funcs.items()}, consts=dict(om_g.assigns), havoc_on=())
+                    grid_g = sorted({x_ for b_ in (lo, hi) if b_ not in (INF, -INF) for x_ in (int(b_) - 2, int(b_) - 1, int(b_), int(b_) + 1, int(b_) + 2)} | {-1, 0, 1, 10 ** 6})
+                    wrong_g = []
+                    decided_g = True
+                    for x_ in grid_g:
+                        outs_ = set()
+                        for p_ in flg.run(fn_g, {fn_g.args.args[0].arg: _Cg(x_)}):
+                            if p_.done != "return" or p_.ret is None or p_.guards:
+                                decided_g = False
+                                break
+                            cv_ = p_.ret.const_value()
+                            if cv_ is None:
+                                decided_g = False
+                                break
+                            outs_.add(bool(cv_))
+                        if not decided_g or len(outs_) != 1:
+                            decided_g = False
+                            break
+                        if outs_.pop() != (lo <= x_ <= hi):
+                            wrong_g.append(x_)
+                    if decided_g:
+                        res.inst(part="options", option=name, evaluated_on=len(grid_g), wrong=wrong_g[:3])
+                        if wrong_g:
+                            res.bad(Finding("C1", "compiler/bitproto/options.py", getattr(cand, "lineno", 0), "options", src_of(cand), f"option {name}: the validator's verdict differs from the documented {_fmt((lo, hi))} at {wrong_g[:4]}", tag=f"option:{name}:range"))
+                        continue
+            except Inconclusive:
+                pass
             res.unsure(f"C1: validator of option {name} is not a conjunction of bounds")
         elif got != (lo, hi):
             res.bad(Finding("C1", "compiler/bitproto/options.py", v.lineno, "options", src_of(v), f"option {name} accepts {_fmt(got)}, documented {_fmt((lo, hi))}", tag=f"option:{name}:range"))
